@@ -493,39 +493,45 @@ class WFSA:
             S = _gen_nt()
         cfg = CFG(R=self.R, V=self.alphabet - {EPSILON}, S=S)
 
+        def q(i):
+            # A state becomes a nonterminal.  The grammar tells terminals from
+            # nonterminals by name (`x in V`), so a state whose name is also an
+            # alphabet symbol (e.g. the states of `from_string`) must be renamed.
+            return ("state", i) if i in cfg.V else i
+
         if recursion == "right":
             # add production rule for initial states
             for i, w in self.I:
-                cfg.add(w, S, i)
+                cfg.add(w, S, q(i))
 
             # add production rule for final states
             for i, w in self.F:
-                cfg.add(w, i)
+                cfg.add(w, q(i))
 
             # add other production rules
             for i, a, j, w in self.arcs():
                 if a == EPSILON:
-                    cfg.add(w, i, j)
+                    cfg.add(w, q(i), q(j))
                 else:
-                    cfg.add(w, i, a, j)
+                    cfg.add(w, q(i), a, q(j))
 
         else:
             assert recursion == "left"
 
             # add production rule for final states
             for i, w in self.F:
-                cfg.add(w, S, i)
+                cfg.add(w, S, q(i))
 
             # add production rule for initial states
             for i, w in self.I:
-                cfg.add(w, i)
+                cfg.add(w, q(i))
 
             # add other production rules
             for i, a, j, w in self.arcs():
                 if a == EPSILON:
-                    cfg.add(w, j, i)
+                    cfg.add(w, q(j), q(i))
                 else:
-                    cfg.add(w, j, i, a)
+                    cfg.add(w, q(j), q(i), a)
 
         return cfg
 
